@@ -1,7 +1,7 @@
 (* C19: the two refutation witnesses, evaluated on the faithful model, and the
-   non-vacuity examples.  (Kept in a file of its own: the ring takes ~30 s.) *)
+   non-vacuity examples.  (Kept in a file of its own: the ring takes ~25 s.) *)
 From Verif Require Import Lib.Base Model.Resolver Model.Determinism Proofs.Resolver Proofs.ResolverExact
-  Proofs.Determinism.
+  Proofs.Determinism Proofs.DeterminismSorted.
 Open Scope Z_scope.
 
 Lemma names_ok_forallb P :
@@ -35,7 +35,7 @@ Proof. split; [apply names_ok_forallb; reflexivity|]. repeat split; vm_compute; 
 
 (* ---------- the verdict at the cut-off boundary ------------------------------------------ *)
 
-Definition ring := ring_prog 200 99.
+Definition ring := ring_prog 101 0.
 
 Lemma ring_names : names_ok ring.
 Proof. apply names_ok_forallb. vm_compute. reflexivity. Qed.
@@ -43,8 +43,8 @@ Proof. apply names_ok_forallb. vm_compute. reflexivity. Qed.
 Lemma ring_wf : wf ring = true.
 Proof. vm_compute. reflexivity. Qed.
 
-(* topoSort started at f150: 100 passes suffice *)
-Lemma ring_accepted : is_ok (resolve (front_oracle (fN 150)) ring) = true.
+(* topoSort started at f001: 100 passes suffice *)
+Lemma ring_accepted : is_ok (resolve (front_oracle (fN 1)) ring) = true.
 Proof. vm_compute. reflexivity. Qed.
 
 (* topoSort started at the top level: the 101st pass still changes something *)
@@ -53,8 +53,19 @@ Proof. vm_compute. reflexivity. Qed.
 
 (* ---------- the name the disassembler shows for a native call ------------------------------ *)
 
+(* function f(a) { natv(a) } with the Go function natv: both have index 0, only natv is entered *)
 Lemma native_clash_shown :
   func_keys native_clash = [n_natv; [102]] /\
-  name_shown native_clash [n_natv; [102]] 0 = Some [102] /\
+  name_shown native_clash [n_natv; [102]] 0 = Some n_natv /\
   name_shown native_clash [[102]; n_natv] 0 = Some n_natv.
 Proof. repeat split; vm_compute; reflexivity. Qed.
+
+(* ---------- the repaired resolver on the former witnesses ------------------------------------ *)
+
+(* sorted order: f before g, so f's error; the top level ("") before every function, so the
+   ring is walked from the top level *)
+Lemma two_bad_sorted : resolve sort_oracle two_bad = RErr (EUse TArray n_a TScalar).
+Proof. vm_compute. reflexivity. Qed.
+
+Lemma ring_sorted : resolve sort_oracle ring = RErr ETooManyIter.
+Proof. vm_compute. reflexivity. Qed.
